@@ -119,7 +119,8 @@ def run(tla: str, cfg: str | None = None, *, workers: int | str = 16, timeout: i
     if cfg is None:
         cfg = tla[:-4] + ".cfg"
     meta = tempfile.mkdtemp(prefix="tlcmeta_")
-    jopts = ["-XX:+UseParallelGC", f"-Xmx{heap}"]
+    # java.io.tmpdir inside the metadir: TLC unpacks its standard modules into <tmpdir>/tlc-*/ on every start
+    jopts = ["-XX:+UseParallelGC", f"-Xmx{heap}", f"-Djava.io.tmpdir={meta}"]
     if dfs_queue:
         jopts.append("-Dtlc2.tool.queue.IStateQueue=StateDeque")
     cmd = ["java", *jopts, "-cp", f"{JAR}:{CM}", "tlc2.TLC", "-workers", str(workers),
@@ -165,8 +166,13 @@ def run(tla: str, cfg: str | None = None, *, workers: int | str = 16, timeout: i
 
 
 def sany(tla: str) -> None:
-    p = subprocess.run(["java", "-cp", f"{JAR}:{CM}", "tla2sany.SANY", os.path.abspath(tla)],
-                       cwd=os.path.dirname(os.path.abspath(tla)), capture_output=True, text=True, timeout=120)
+    tmp = tempfile.mkdtemp(prefix="sany_")
+    try:
+        p = subprocess.run(["java", f"-Djava.io.tmpdir={tmp}", "-cp", f"{JAR}:{CM}", "tla2sany.SANY",
+                            os.path.abspath(tla)],
+                           cwd=os.path.dirname(os.path.abspath(tla)), capture_output=True, text=True, timeout=120)
+    finally:
+        shutil.rmtree(tmp, ignore_errors=True)
     if p.returncode != 0 or "Fatal errors" in p.stdout or "*** Errors" in p.stdout or "Parse Error" in p.stdout:
         raise MachineryError(f"SANY rejected {tla}:\n{p.stdout[-3000:]}")
 
